@@ -26,11 +26,15 @@ def case_strategy(draw, tier):
     ids = sorted(lv)
     dl = []      # per leaf: [mode, a, b]; mode 0 = not in D, 1 int, 2 (v,v), 3 sub-range tuple, 4 Bounds sub-range, 5 numpy int
     il = []      # per leaf: interpretation [mode, a, b]; mode 0 = absent
-    for i in ids:
+    # which leaves are assumed: small dictionaries (0-3 entries) are as interesting as large ones
+    k = draw(st.sampled_from([0, 1, 1, 1, 2, 2, 3, len(ids)]))
+    chosen = set(draw(st.lists(st.integers(0, max(0, len(ids) - 1)), min_size=min(k, len(ids)), max_size=min(k, len(ids)), unique=True))) if ids else set()
+    for j, i in enumerate(ids):
         lo, hi = lv[i]
-        mode = draw(st.sampled_from([0, 0, 0, 1, 2, 3, 4, 5]))
-        a = draw(st.integers(lo, hi))
-        b = draw(st.integers(a, min(hi, a + 4)))
+        mode = draw(st.sampled_from([1, 1, 2, 3, 4, 5])) if j in chosen else 0
+        # values biased to the ends and the mid-point of the declared range (symmetric narrowings keep lower+upper)
+        a = draw(st.one_of(st.sampled_from([lo, hi, (lo + hi) // 2, (lo + hi + 1) // 2]), st.integers(lo, hi)))
+        b = draw(st.one_of(st.just(min(hi, max(a, lo + hi - a))), st.integers(a, min(hi, a + 4))))
         dl.append([mode, a, b])
         im = draw(st.sampled_from([1, 1, 1, 1, 1, 2, 0, 3]))
         x = draw(st.integers(lo, hi))
@@ -39,6 +43,32 @@ def case_strategy(draw, tier):
     dc = [list(t) for t in draw(st.lists(st.tuples(st.integers(0, 30), st.integers(0, 1), st.integers(0, 2)), max_size=3))]
     extra = draw(st.lists(st.lists(st.integers(0, 70000), min_size=len(ids), max_size=len(ids)), min_size=6, max_size=12))
     return {"model": spec, "dl": dl, "il": il, "dc": dc, "extra": extra}
+
+
+@st.composite
+def symmetric_case(draw, tier):
+    """exactly one integer leaf is assumed, at a value / sub-range that keeps lower+upper of its declared bounds (mid-point
+    or symmetric narrowing) - invisible to anything that compares sums or additive hashes of bounds"""
+    spec = draw(S.model_spec(depth=2 if tier == "quick" else 3, profile="small", max_bool=2, max_int=3, min_leaves=2))
+    lv = oracle.spec_leaves(spec)
+    ids = sorted(lv)
+    ints = [j for j, i in enumerate(ids) if lv[i][1] - lv[i][0] >= 2]
+    target = ints[draw(st.integers(0, len(ints) - 1))] if ints else None
+    dl, il = [], []
+    for j, i in enumerate(ids):
+        lo, hi = lv[i]
+        if j == target:
+            w = draw(st.integers(0, (hi - lo) // 2))
+            a, b = lo + w, hi - w
+            if (lo + hi) % 2 == 0 and draw(st.booleans()):
+                a = b = (lo + hi) // 2
+            mode = (draw(st.sampled_from([1, 2, 5])) if a == b else draw(st.sampled_from([3, 4])))
+            dl.append([mode, a, b])
+        else:
+            dl.append([0, lo, lo])
+        il.append([draw(st.sampled_from([1, 1, 1, 2, 0])), draw(st.integers(lo, hi)), hi])
+    extra = draw(st.lists(st.lists(st.integers(0, 70000), min_size=len(ids), max_size=len(ids)), min_size=6, max_size=8))
+    return {"model": spec, "dl": dl, "il": il, "dc": [], "extra": extra}
 
 
 def _val(mode, a, b):
@@ -155,4 +185,5 @@ def _show(d):
 
 
 def parts(tier):
-    return [Part("assume", strategy=lambda t: case_strategy(t), check=check, quick=(8, 300), thorough=(16, 2500))]
+    return [Part("assume", strategy=lambda t: case_strategy(t), check=check, quick=(8, 300), thorough=(16, 2500)),
+            Part("symmetric", strategy=lambda t: symmetric_case(t), check=check, quick=(3, 300), thorough=(6, 2500))]
